@@ -248,8 +248,9 @@ func suggCoq(s *suggestionsv1beta1.Suggestion) string {
 	settings := kit.ListOf(s.Spec.Algorithm.AlgorithmSettings, func(a commonv1beta1.AlgorithmSetting) string {
 		return kit.Pair(kit.Str(a.Name), kit.Str(a.Value))
 	})
-	return kit.Rec("Sugg", kit.Str(s.Name), kit.Str(s.Namespace), settings, kit.Str(util.GetEarlyStoppingEndpoint(s)),
-		kit.Str(util.GetSuggestionPersistentVolumeClaimName(s)))
+	// the two helpers of katib are given copies: s belongs to the replayable input
+	return kit.Rec("Sugg", kit.Str(s.Name), kit.Str(s.Namespace), settings, kit.Str(util.GetEarlyStoppingEndpoint(s.DeepCopy())),
+		kit.Str(util.GetSuggestionPersistentVolumeClaimName(s.DeepCopy())))
 }
 
 func constsCoq() string {
